@@ -5,9 +5,10 @@ VARIABLES sc
 NestedKids == {<<"C", <<P(a)>>>> : a \in Plain \ {"Exception"}} \cup {<<"C", <<P("KeyError"), P("ValueError")>>>>}
 Kid == {P(a) : a \in Plain \ {"Exception"}} \cup NestedKids
 NestedItems == {<<"C", {P(a)}, FALSE>> : a \in {"LookupError", "KeyError", "ValueError"}} \cup {<<"C", {P("KeyError")}, TRUE>>}
+               \cup {<<"C", {}, TRUE>>}       \* Concurrent[(...,)]: no type named, anything allowed
 Item == {P(a) : a \in Plain} \cup NestedItems
 Init == sc \in [kids : UNION {[1..n -> Kid] : n \in 1..3},
-                items : {S \in SUBSET Item : Cardinality(S) \in 1..2},
+                items : {S \in SUBSET Item : Cardinality(S) \in 0..2},       \* 0: Concurrent[()] and Concurrent[(...,)]
                 incl : BOOLEAN]
 Next == UNCHANGED sc
 Spec == Init /\ [][Next]_sc
